@@ -204,7 +204,19 @@ var base0 int
 // guard runs one call of the code under test under a watchdog: a call that does not return within the bound is
 // observed as "stuck" (its goroutine stays behind, the scenario goes on or is abandoned, the process never hangs).
 // The bound is 5 s (against microseconds); after three expiries in one run it is cut to 1 s.
-func guard(call func() string) string {
+func guard(call func() string) string { return guardFor(0, call) }
+
+// drainWait bounds the wait of the draining scripted subscriber for the settlement of one message it handed out during
+// its Close (3 s; 500 ms after three expiries in the run).
+func drainWait() time.Duration {
+	if atomic.LoadInt32(&expiries) >= 3 {
+		return 500 * time.Millisecond
+	}
+	return 3 * time.Second
+}
+
+// guardFor: like guard with `extra` added to the bound (a Close that legitimately waits for settlements).
+func guardFor(extra time.Duration, call func() string) string {
 	done := make(chan string, 1)
 	go func() {
 		defer func() {
@@ -221,7 +233,7 @@ func guard(call func() string) string {
 	select {
 	case r := <-done:
 		return r
-	case <-time.After(bound):
+	case <-time.After(bound + extra):
 		expired()
 		base0++ // the stuck call's goroutine
 		return "stuck"
